@@ -7,6 +7,7 @@ import (
 	"strconv"
 	"strings"
 
+	"github.com/mmcloughlin/md4"
 	"golang.org/x/tools/go/ssa"
 )
 
@@ -112,6 +113,14 @@ func init() {
 		return nil
 	}
 	// vhash_* : ideal-hash model usable directly from harness code
+	h["vparam"] = func(ex *Exec, fn *ssa.Function, args []Value) Value {
+		name, _ := args[0].(Str).Concrete()
+		v, ok := ex.eng.Params[name]
+		if !ok {
+			panic(engineErr("vparam(%q) not set", name))
+		}
+		return ex.st.Const(64, uint64(int64(v)))
+	}
 	h["vnote"] = func(ex *Exec, fn *ssa.Function, args []Value) Value {
 		s, _ := args[0].(Str).Concrete()
 		ex.res.Truncated = append(ex.res.Truncated, "note: "+s)
@@ -123,6 +132,9 @@ func init() {
 	for _, n := range []string{
 		"(*log.Logger).Printf", "(*log.Logger).Println", "(*log.Logger).Print", "log.Printf", "log.Println", "log.Print",
 		"(*github.com/gokrazy/rsync/internal/rsyncos.Env).Logf",
+		"(*github.com/gokrazy/rsync/internal/progress.Printer).Reset",
+		"(*github.com/gokrazy/rsync/internal/progress.Printer).MaybeShow",
+		"(*github.com/gokrazy/rsync/internal/progress.Printer).Show",
 	} {
 		in[n] = nop
 	}
@@ -1026,15 +1038,15 @@ func (ex *Exec) digest(data []*Term) []*Term {
 	}
 	out := make([]*Term, 16)
 	if ex.isConcrete {
-		// concrete mode: use a deterministic stand-in digest (FNV-like) so runs are reproducible
-		var h1, h2 uint64 = 1469598103934665603, 1099511628211
-		for _, b := range data {
-			h1 = (h1 ^ b.Val) * 1099511628211
-			h2 = h2*31 + b.Val + 7
+		// concrete mode: the real MD4, so that results agree with the native build
+		h := md4.New()
+		raw := make([]byte, len(data))
+		for i, b := range data {
+			raw[i] = byte(b.Val)
 		}
-		for i := 0; i < 8; i++ {
-			out[i] = st.Const(8, h1>>(8*uint(i)))
-			out[8+i] = st.Const(8, h2>>(8*uint(i)))
+		h.Write(raw)
+		for i, b := range h.Sum(nil) {
+			out[i] = st.Const(8, uint64(b))
 		}
 	} else {
 		k := len(ex.digests)
@@ -1052,7 +1064,15 @@ func (ex *Exec) digest(data []*Term) []*Term {
 			} else {
 				inEq = ex.bytesEqual(d.data, data)
 			}
-			outEq := ex.bytesEqual(d.out, out)
+			np := 16
+			if v, ok := ex.eng.Params["hashprefix"]; ok && v > 0 && v < 16 {
+				np = v
+			}
+			outEq := ex.bytesEqual(d.out[:np], out[:np])
+			if np < 16 {
+				// function axiom on the full digest
+				ex.assume(st.Implies(inEq, ex.bytesEqual(d.out, out)))
+			}
 			// inEq <=> outEq
 			ex.assume(st.Eq(inEq, outEq))
 		}
